@@ -171,7 +171,7 @@ class table__p_o_s_t(DefaultTable.DefaultTable):
         assert len(glyphOrder) == numGlyphs
         indices = array.array("H")
         extraDict = {}
-        extraNames = self.extraNames = [
+        extraNames = [
             n for n in self.extraNames if n not in standardGlyphOrder
         ]
         for i, name in enumerate(extraNames):
